@@ -442,9 +442,6 @@ func pathD(v ssa.Value, d int) string {
 			}
 			return b.Name() + "(" + strings.Join(as, ",") + ")"
 		}
-		if f := x.Call.StaticCallee(); f != nil && f.Pkg != nil && f.Pkg.Pkg.Path() == "unsafe" {
-			return "unsafe." + f.Name()
-		}
 		return "call:" + x.Name()
 	case *ssa.Alloc:
 		if x.Comment != "" {
